@@ -95,3 +95,49 @@ fn c18_witness_must_fail() {
     let c = Crossing::new(t, [0, 1, 2, 3]);
     assert!(c.pass(0) != 3, "WITNESS: V-type pass reachable");
 }
+
+#[kani::proof]
+fn c18_crossing_convert_edges_keeps_type() {
+    let t = any_type();
+    let e: [usize; 4] = kani::any();
+    kani::assume(e[0] < 1000 && e[1] < 1000 && e[2] < 1000 && e[3] < 1000);
+    let c = Crossing::new(t, e);
+    let k: usize = kani::any();
+    kani::assume(k < 1000);
+    let d = c.convert_edges(|x| 3 * x + k);
+    assert!(d.ctype() == t);
+    let i: usize = kani::any();
+    kani::assume(i < 4);
+    assert!(d.edge(i) == 3 * e[i] + k);
+    assert!(d.pass(i) == c.pass(i));
+    // relabelling commutes with mirroring
+    assert!(c.mirror().convert_edges(|x| 3 * x + k) == d.mirror());
+    kani::cover!(t == CrossingType::Xm);
+    kani::cover!(true);
+}
+
+// Braid words: inv() is the inverse word (reversed, every letter inverted), so w * w.inv() cancels letter by letter
+#[kani::proof]
+#[kani::unwind(6)]
+fn c18_braid_inv_is_the_inverse_word() {
+    use yui_link::Braid;
+    let g: [i32; 3] = kani::any();
+    for k in 0..3 {
+        kani::assume(g[k] != 0 && g[k] > -4 && g[k] < 4);
+    }
+    let n: usize = kani::any();
+    kani::assume(n <= 3);
+    let w = Braid::new(4, g[..n].iter().map(|&x| Generator::from(x)).collect());
+    let v = w.inv();
+    assert!(v.len() == n && v.strands() == 4);
+    let mut i = 0;
+    while i < n {
+        let (a, b) = (w.elements()[i], v.elements()[n - 1 - i]);
+        assert!(a.index() == b.index());
+        assert!(a.sign().is_positive() != b.sign().is_positive());
+        i += 1;
+    }
+    assert!(v.inv() == w);
+    kani::cover!(n == 3 && g[0] != g[2], "non-palindromic word");
+    kani::cover!(true);
+}
